@@ -6,7 +6,8 @@
 (* rejection of the current step in  rej  and carries on, so verdicts are total.                              *)
 (*                                                                                                            *)
 (* Events (records; names and text are code point sequences, never strings):                                  *)
-(*   [k |-> "run",  exp]                      start of a generator run; exp[sid] = payload planted as span sid *)
+(*   [k |-> "run",  exp, nt]                  start of a generator run; exp[sid] = payload planted as span sid; *)
+(*                                            the input has the types 0..nt-1 (text refs name them, version-exact) *)
 (*   [k |-> "doc",  pg, path]                 start of a page; path = <<segment, ...>> below the output dir    *)
 (*   [k |-> "open", t, a, sc, taint, bad]     start tag t, attributes a[i] = [n, hv, v (pieces)], self-closing *)
 (*   [k |-> "close", t, taint, bad]           end tag                                                         *)
@@ -95,7 +96,8 @@ LinkVerdict(lk, pages, ids) ==
 NoDoc == [pg |-> 0, page |-> <<>>, stack |-> <<>>, span |-> 0, broken |-> FALSE, acc |-> <<>>,
           ain |-> FALSE, ahas |-> FALSE, ahref |-> <<>>, arefs |-> {}, aspan |-> FALSE, pids |-> {}]
 
-Init0 == [doc |-> NoDoc, exp |-> <<>>, pages |-> {}, ids |-> {}, links |-> {}, rej |-> <<>>, notes |-> <<>>, lrej |-> {}]
+Init0 == [doc |-> NoDoc, exp |-> <<>>, nt |-> 0, pages |-> {}, ids |-> {}, links |-> {}, rej |-> <<>>, notes |-> <<>>,
+          lrej |-> {}, trej |-> {}, srej |-> {}]
 
 Rej(s, clause, detail, arg) == [s EXCEPT !.rej = Append(@, [clause |-> clause, detail |-> detail, arg |-> arg])]
 Note(s, clause, arg)        == [s EXCEPT !.notes = Append(@, [clause |-> clause, arg |-> arg])]
@@ -140,13 +142,19 @@ ValueFold(s, ps, i, span, acc) ==
                  ValueFold(IF acc # Expected(s, p.i) THEN Note(s, "html.text_fidelity", p.i) ELSE s, ps, i + 1, 0, <<>>)
             ELSE ValueFold(Rej(s, "html.sentinel", "attribute-breakout", p.i), ps, i + 1, 0, <<>>)
 
-RECURSIVE AttrFold(_, _, _)
-AttrFold(s, as, i) ==
+(* anchors of a page: every id, and the name of an <a>; an id occurs once per page                             *)
+RECURSIVE AttrFold(_, _, _, _)
+AttrFold(s, as, i, tag) ==
     IF i > Len(as) THEN s
     ELSE LET a  == as[i]
              s1 == ValueFold(s, a.v, 1, 0, <<>>)
-             s2 == IF a.n \in {N_id, N_name} /\ a.hv THEN [s1 EXCEPT !.doc.pids = @ \cup {PlainOf(a.v, 1)}] ELSE s1
-         IN AttrFold(s2, as, i + 1)
+             v  == PlainOf(a.v, 1)
+             s2 == IF a.hv /\ (a.n = N_id \/ (a.n = N_name /\ tag = N_a))
+                   THEN (IF a.n = N_id /\ v \in s1.doc.pids
+                         THEN Rej(s1, "html.balanced", "duplicate-id", 0)
+                         ELSE [s1 EXCEPT !.doc.pids = @ \cup {v}])
+                   ELSE s1
+         IN AttrFold(s2, as, i + 1, tag)
 
 (* markup (anything but character data) while a character-data span is open: the payload introduced it       *)
 Markup(s) ==
@@ -173,7 +181,7 @@ Malformed(s, bad, payload, span) ==
     ELSE RejAll(s, "html.balanced", bad, 1)
 
 (* ---------------------------------------- one action per event kind -------------------------------------- *)
-DoRun(s, e) == [Init0 EXCEPT !.exp = e.exp]
+DoRun(s, e) == [Init0 EXCEPT !.exp = e.exp, !.nt = e.nt]
 
 DoDoc(s, e) == [s EXCEPT !.doc = [NoDoc EXCEPT !.pg = e.pg, !.page = e.path], !.rej = <<>>, !.notes = <<>>]
 
@@ -181,7 +189,7 @@ DoOpen(s, e) ==
     LET s0 == [s EXCEPT !.rej = <<>>, !.notes = <<>>]
         s1 == Markup(s0)
         s2 == IF e.taint > 0 THEN Rej(s1, "html.sentinel", "sentinel-in-tag-or-attribute-name", 0) ELSE s1
-        s3 == AttrFold(s2, e.a, 1)
+        s3 == AttrFold(s2, e.a, 1, e.t)
         s4 == Malformed(s3, e.bad, s.doc.span # 0 \/ e.taint > 0 \/ ValHasMark(e.a), s.doc.span)
         h  == HrefOf(e.a)
         \* an <a> that opens while a sentinel span is open may have been introduced by the payload: remembered in the link (inspan)
@@ -230,12 +238,30 @@ DoEndDoc(s, e) ==
     IN [s2 EXCEPT !.pages = @ \cup {d.page}, !.ids = @ \cup {<<d.page, i>> : i \in d.pids},
                   !.doc = [NoDoc EXCEPT !.pg = d.pg]]
 
-(* end of run: every type-reference hyperlink of every page resolves.  The rejections are kept as a set of   *)
-(* records so that the T-layer can print one line per broken link.                                           *)
-BrokenLinks(s) == {r \in {[link |-> lk, why |-> LinkVerdict(lk, s.pages, s.ids), to |-> Resolve(lk.from, lk.href, s.pages).page] : lk \in s.links} :
-                      r.why # "ok"}
+(* end of run: every type-reference hyperlink of every page resolves; every type of the input is named by at    *)
+(* least one hyperlink that resolves (it is listed and its anchor exists: no type is left out of the pages);   *)
+(* hyperlinks for different types do not lead to the same anchor (one anchor per type and version).            *)
+(* The rejections are kept as sets of records so that the T-layer can print one line each.                   *)
+(* every link resolved and judged once: [lk |-> [to, frag, why]]                                              *)
+Judged(links, pages, ids) ==
+    [lk \in links |-> LET r == Resolve(lk.from, lk.href, pages)
+                      IN [to |-> r.page, frag |-> r.frag,
+                          why |-> IF ~r.ok THEN r.why
+                                  ELSE IF r.page \notin pages THEN "page-not-produced"
+                                  ELSE IF r.frag # <<>> /\ <<r.page, r.frag>> \notin ids THEN "anchor-not-produced"
+                                  ELSE "ok"]]
+BrokenJ(J) == {[link |-> lk, why |-> J[lk].why, to |-> J[lk].to] : lk \in {lk \in DOMAIN J : J[lk].why # "ok"}}
+UnlistedJ(nt, J) == LET good == {lk \in DOMAIN J : J[lk].why = "ok"} IN {t \in 0..nt : t < nt /\ ~\E lk \in good : t \in lk.refs}
+SharedJ(J) ==
+    LET one == {lk \in DOMAIN J : J[lk].why = "ok" /\ Cardinality(lk.refs) = 1 /\ J[lk].frag # <<>>}
+    IN {[to |-> J[p[1]].to, frag |-> J[p[1]].frag, types |-> p[1].refs \cup p[2].refs] :
+            p \in {p \in one \X one : p[1].refs # p[2].refs /\ J[p[1]].to = J[p[2]].to /\ J[p[1]].frag = J[p[2]].frag}}
+Unlisted(nt, links, pages, ids) == UnlistedJ(nt, Judged(links, pages, ids))
+SharedAnchors(links, pages, ids) == SharedJ(Judged(links, pages, ids))
 
-DoEndRun(s, e) == [s EXCEPT !.rej = <<>>, !.notes = <<>>, !.doc = NoDoc, !.lrej = BrokenLinks(s)]
+DoEndRun(s, e) ==
+    LET J == Judged(s.links, s.pages, s.ids)
+    IN [s EXCEPT !.rej = <<>>, !.notes = <<>>, !.doc = NoDoc, !.lrej = BrokenJ(J), !.trej = UnlistedJ(s.nt, J), !.srej = SharedJ(J)]
 
 Step(s, e) ==
     CASE e.k = "run"     -> DoRun(s, e)
@@ -287,7 +313,7 @@ Ev(tok) ==
       [] tok = "c" -> [k |-> "comment", tm |-> 0, tn |-> 0, pg |-> 1, n |-> 0]
       [] tok = "cm" -> [k |-> "comment", tm |-> 1, tn |-> 0, pg |-> 1, n |-> 0]
 
-SInit == /\ st = Step(Step(Init0, [k |-> "run", exp |-> <<X, X, X>>]), [k |-> "doc", pg |-> 1, path |-> <<N_index_html>>])
+SInit == /\ st = Step(Step(Init0, [k |-> "run", exp |-> <<X, X, X>>, nt |-> 0]), [k |-> "doc", pg |-> 1, path |-> <<N_index_html>>])
          /\ toks = <<>> /\ seen = {}
 SNext == /\ Len(toks) < MaxLen
          /\ \E tok \in Tokens :
@@ -322,7 +348,7 @@ NoSpanEverAccepted == ~(Len(toks) = MaxLen /\ (seen \cup EndClauses) = {} /\ \E 
 
 (* ---- unit sanity of rarely taken branches (evaluated once at start-up of every run that loads this module) ---- *)
 AcceptsPage(es) ==
-    RunAll(Step(Step(Init0, [k |-> "run", exp |-> <<>>]), [k |-> "doc", pg |-> 1, path |-> <<N_index_html>>]),
+    RunAll(Step(Step(Init0, [k |-> "run", exp |-> <<>>, nt |-> 0]), [k |-> "doc", pg |-> 1, path |-> <<N_index_html>>]),
            es \o <<[k |-> "enddoc", pg |-> 1]>>, 1, <<>>, <<>>).rej = <<>>
 N_path == <<112, 97, 116, 104>>
 N_div == <<100, 105, 118>>
@@ -344,4 +370,13 @@ ASSUME UR(<<UA, N_index_html>>, <<>>).page = <<UA, N_index_html>>
 ASSUME LinkVerdict([from |-> <<UA, N_index_html>>, href |-> <<98, 47, 35, 120>>], UPages, {<<<<UA, UB, N_index_html>>, <<120>>>>}) = "ok"
 ASSUME LinkVerdict([from |-> <<UA, N_index_html>>, href |-> <<98, 47, 35, 121>>], UPages, {<<<<UA, UB, N_index_html>>, <<120>>>>}) = "anchor-not-produced"
 ASSUME LinkVerdict([from |-> <<UA, N_index_html>>, href |-> <<99, 47, 35, 120>>], UPages, {}) = "page-not-produced"
+IdAttr(v) == [n |-> N_id, hv |-> TRUE, v |-> <<[m |-> 0, i |-> 0, s |-> v]>>]
+ASSUME ~AcceptsPage(<<[OpenEv(N_p) EXCEPT !.a = <<IdAttr(X)>>], CloseEv(N_p), [OpenEv(N_p) EXCEPT !.a = <<IdAttr(X)>>], CloseEv(N_p)>>)   \* id twice
+ULk(h, t) == [pg |-> 1, from |-> <<UA, N_index_html>>, href |-> h, refs |-> {t}, inspan |-> FALSE]
+UIds == {<<<<UA, N_index_html>>, <<120>>>>, <<<<UA, N_index_html>>, <<121>>>>}
+ASSUME Unlisted(2, {ULk(<<35, 120>>, 0)}, UPages, UIds) = {1}                                   \* type 1 is named by no resolving link
+ASSUME Unlisted(2, {ULk(<<35, 120>>, 0), ULk(<<35, 122>>, 1)}, UPages, UIds) = {1}              \* ... a dangling one does not count
+ASSUME Unlisted(2, {ULk(<<35, 120>>, 0), ULk(<<35, 121>>, 1)}, UPages, UIds) = {}
+ASSUME SharedAnchors({ULk(<<35, 120>>, 0), ULk(<<35, 121>>, 1)}, UPages, UIds) = {}
+ASSUME SharedAnchors({ULk(<<35, 120>>, 0), ULk(<<35, 120>>, 1)}, UPages, UIds) # {}              \* two types, one anchor
 =============================================================================
